@@ -3,7 +3,8 @@ CONSTANTS
   MaxMsg = 4
   Compress = TRUE
   Decode = TRUE
-  PendMax = 0
+  PendMax = 3
+  ExpMax = 3
   AccMax = 5
   Alphabet = "full"
 INVARIANT InvSelf
